@@ -23,6 +23,34 @@ CORPUS = [
     Mut('c08-grid-lookup-mark', CO, 'PiecewiseConstantCoalescentGrid.log_prob', 'thetas_indices = torch.where(…', None),
     Mut('c08-benign-rename', CO, 'ConstantCoalescent.log_prob', 'durations = heights_sorted[..., 1:] - heights_sorted[..., :-1]',
         'durations = heights_sorted[..., 1:] - heights_sorted[..., :-1]\nn_intervals = durations.shape[-1]', benign=True),
+    Mut('c08-exp-integral-divides-by-growth-twice', CO, '', "        integral = (height_growth_exp[..., 1:] - height_growth_exp[..., :-1]) / (\n            self.theta * self.growth\n        )",
+        "        integral = (height_growth_exp[..., 1:] - height_growth_exp[..., :-1]) / (\n            self.theta * self.growth * self.growth\n        )", mode='text',
+        expect=[('C08.I', 'ExponentialCoalescent::always')]),
+    Mut('c08-exp-integral-wrong-sign-of-growth', CO, '', "        height_growth_exp = torch.exp(heights_sorted * self.growth)", "        height_growth_exp = torch.exp(-heights_sorted * self.growth)", mode='text',
+        expect=[('C08.I', 'ExponentialCoalescent::always')]),
+    Mut('c08-exp-logN-other-model', CO, '', "            self.theta * torch.exp(-heights_sorted * self.growth)\n        ) * (node_mask_sorted == -1)", "            self.theta * torch.exp(heights_sorted * self.growth)\n        ) * (node_mask_sorted == -1)", mode='text',
+        expect=[('C08.I', 'ExponentialCoalescent::always')]),
+    Mut('c08-exp-one-sided-zero-growth-switch', CO, '', "        integral = (height_growth_exp[..., 1:] - height_growth_exp[..., :-1]) / (\n            self.theta * self.growth\n        )",
+        "        integral = torch.where(self.growth < 1.0e-12, (heights_sorted[..., 1:] - heights_sorted[..., :-1]) / self.theta, (height_growth_exp[..., 1:] - height_growth_exp[..., :-1]) / (\n            self.theta * self.growth\n        ))", mode='text',
+        expect=[('C08.I', 'ExponentialCoalescent::self.growth < 1e-12')]),
+    Mut('c08-benign-exp-two-sided-zero-growth-switch', CO, '', "        integral = (height_growth_exp[..., 1:] - height_growth_exp[..., :-1]) / (\n            self.theta * self.growth\n        )",
+        "        integral = torch.where(self.growth.abs() < 1.0e-12, (heights_sorted[..., 1:] - heights_sorted[..., :-1]) / self.theta, (height_growth_exp[..., 1:] - height_growth_exp[..., :-1]) / (\n            self.theta * self.growth\n        ))", mode='text', benign=True),
+    Mut('c08-benign-exp-exact-zero-growth-switch', CO, '', "        integral = (height_growth_exp[..., 1:] - height_growth_exp[..., :-1]) / (\n            self.theta * self.growth\n        )",
+        "        integral = torch.where(self.growth == 0.0, (heights_sorted[..., 1:] - heights_sorted[..., :-1]) / self.theta, (height_growth_exp[..., 1:] - height_growth_exp[..., :-1]) / (\n            self.theta * self.growth\n        ))", mode='text', benign=True),
+    Mut('c08-linear-fallback-last-theta', CO, '', "        integral = intervals / pop_sizes[..., 1:-1]\n", "        integral = intervals / thetas[..., -1:]\n", mode='text',
+        expect=[('C08.I', 'PiecewiseLinearCoalescentGrid::not diff_thetas != 0.0')]),
+    Mut('c08-linear-absolute-tolerance', CO, '', "        idx = (diff_thetas != 0.0).nonzero(as_tuple=True)", "        idx = (diff_thetas.abs() > 1.0e-8).nonzero(as_tuple=True)", mode='text',
+        expect=[('C08.I', 'degenerate-case-switch-is-scale-free')]),
+    Mut('c08-linear-main-formula', CO, '', "        integral[idx] = intervals[idx] * diff_log_thetas[idx] / diff_thetas[idx]", "        integral[idx] = intervals[idx] / diff_log_thetas[idx] * diff_thetas[idx]", mode='text',
+        expect=[('C08.I', 'PiecewiseLinearCoalescentGrid::diff_thetas != 0.0')]),
+    Mut('c08-benign-linear-fallback-end-size', CO, '', "        integral = intervals / pop_sizes[..., 1:-1]\n", "        integral = intervals / pop_sizes[..., 2:]\n", mode='text', benign=True),
+    Mut('c08-multiplicities-pooled', CO, '', "node_heights.flatten()[:taxa_count].unique(", "node_heights[..., :taxa_count].unique(", mode='text',
+        expect=[('C08.M', 'SoftPiecewiseConstantCoalescentGrid.log_prob')]),
+    Mut('c08-benign-multiplicities-first-row', CO, '', "node_heights.flatten()[:taxa_count].unique(", "node_heights.reshape(-1)[:taxa_count].unique(", mode='text', benign=True),
+    Mut('c08-repaired-piecewise-exponential-integral', CO, '', "        integral = (\n            grid_heights_growth_exp[..., 1:] - grid_heights_growth_exp[..., :-1]\n        ) / (thetas * growth_intervals[..., 1:])\n",
+        "        idx_end = indices_grid_heights[..., 1:]\n        g_end = growth.gather(-1, idx_end)\n        start = grid0.gather(-1, idx_end)\n        log_n0 = log_pop_size_grid.gather(-1, idx_end)\n"
+        "        integral = (\n            torch.exp(g_end * (grid_heights_sorted[..., 1:] - start)) - torch.exp(g_end * (grid_heights_sorted[..., :-1] - start))\n        ) / (torch.exp(log_n0) * g_end)\n",
+        mode='text', benign=True, note='a repaired integral must satisfy the rule that reports the known finding'),
 ]
 for m in CORPUS:
     if m.id == 'c08-marks-not-permuted':
